@@ -39,6 +39,7 @@ func main() {
 		os.Exit(2)
 	}
 	g.computeModSets()
+	g.computeUncontained()
 	loadSecs := time.Since(t0).Seconds()
 	switch args[0] {
 	case "list":
@@ -48,6 +49,12 @@ func main() {
 				k = "  [contract]"
 			}
 			fmt.Printf("%s%s\n", n, k)
+		}
+	case "uncontained":
+		for _, n := range g.fnames {
+			if why, ok := g.uncontained[g.funcs[n]]; ok {
+				fmt.Printf("%s: %s\n", n, why)
+			}
 		}
 	case "mods":
 		for _, n := range g.fnames {
